@@ -100,6 +100,19 @@ func TestVerifC11(t *testing.T) {
 		out.Case(c11RunCase(t, out, d.cfg, c11Scripted(d.ops)))
 		out.Cover("cases_directed")
 	}
+	out.Case(c11ClientCase(t, out, c11ClientDirected()))
+	out.Cover("cases_client")
+	{
+		rr := verifh.NewRand(verifh.Seed() + 77)
+		nc := 6
+		if verifh.Tier() == "thorough" {
+			nc = 40
+		}
+		for i := 0; i < nc; i++ {
+			out.Case(c11ClientCase(t, out, c11ClientRandom(rr, 60)))
+			out.Cover("cases_client")
+		}
+	}
 	ncases, nops := 600, 40
 	if verifh.Tier() == "thorough" {
 		ncases, nops = 2400, 60
